@@ -1,6 +1,7 @@
 package main
 
 import (
+	"go/token"
 	"strings"
 
 	"golang.org/x/tools/go/ssa"
@@ -186,6 +187,79 @@ func flagRegisteredAs(c *Ctx, initFlags *ssa.Function, name string) string {
 		if call, ok := st.Val.(*ssa.Call); ok && strings.HasPrefix(calleeName(&call.Call), "flag.") {
 			out, _ = constString(call.Call.Args[0])
 		}
+	})
+	if out != "" {
+		return out
+	}
+	// table-driven registration: `for _, f := range []T{{&flagX, "name", …}, …} { *f.target = flag.String(f.name, …) }`
+	// — the element of the literal that carries &flagX says under which name flagX is registered
+	type elemKey struct {
+		al  *ssa.Alloc
+		idx int64
+	}
+	strs := map[elemKey]map[int]string{} // element -> field index -> constant string
+	var mine *elemKey
+	targetField := -1
+	eachInstr(initFlags, func(i ssa.Instruction) {
+		st, ok := i.(*ssa.Store)
+		if !ok {
+			return
+		}
+		fa, ok := st.Addr.(*ssa.FieldAddr)
+		if !ok {
+			return
+		}
+		ia, ok := fa.X.(*ssa.IndexAddr)
+		if !ok {
+			return
+		}
+		al, ok := ia.X.(*ssa.Alloc)
+		k, isC := constInt(ia.Index)
+		if !ok || !isC || al.Comment != "slicelit" {
+			return
+		}
+		ek := elemKey{al, k}
+		if g, isG := st.Val.(*ssa.Global); isG && g.Name() == c.nowName("", name) {
+			mine = &ek
+			targetField = fa.Field
+		}
+		if sv, isS := constString(st.Val); isS {
+			if strs[ek] == nil {
+				strs[ek] = map[int]string{}
+			}
+			strs[ek][fa.Field] = sv
+		}
+	})
+	if mine == nil {
+		return ""
+	}
+	// the registering store: *elem.target = flag.X(elem.<nameField>, …) in a loop over that literal
+	eachInstr(initFlags, func(i ssa.Instruction) {
+		st, ok := i.(*ssa.Store)
+		if !ok {
+			return
+		}
+		ld, ok := st.Addr.(*ssa.UnOp)
+		if !ok || ld.Op != token.MUL {
+			return
+		}
+		tfa, ok := ld.X.(*ssa.FieldAddr)
+		if !ok || tfa.Field != targetField {
+			return
+		}
+		call, ok := st.Val.(*ssa.Call)
+		if !ok || !strings.HasPrefix(calleeName(&call.Call), "flag.") {
+			return
+		}
+		nld, ok := call.Call.Args[0].(*ssa.UnOp)
+		if !ok || nld.Op != token.MUL {
+			return
+		}
+		nfa, ok := nld.X.(*ssa.FieldAddr)
+		if !ok || nfa.X != tfa.X {
+			return // name and target must come from the same element
+		}
+		out = strs[*mine][nfa.Field]
 	})
 	return out
 }
